@@ -145,7 +145,26 @@ def check_next(ctx, F, hty, size_off, label, rule_prefix="T"):
     nones = [e for e in ex if e.kind == "None"]
     somes = [e for e in ex if e.kind == "Some"]
     # T4 first test
-    g = len(nones) == 1 and len(somes) == 1 and ("cmp", "Eq", off, ("len", buf)) in [N(f) for f in nones[0].own] and len(nones[0].facts) == len(nones[0].own)
+    def is_end_test(f):
+        # `offset == buffer.len()`, or the same test on the rest of the buffer: `buffer[offset..].is_empty()` (len - offset == 0)
+        f = N(f)
+        if f == ("cmp", "Eq", off, ("len", buf)):
+            return True
+        try:
+            return f[0] == "cmp" and f[1] == "Eq" and G.lin(f[2]).add(G.lin(f[3]), -1).key() in (
+                G.lin(("len", buf)).add(G.lin(off), -1).key(), G.lin(off).add(G.lin(("len", buf)), -1).key())
+        except Exception:
+            return False
+    def is_rest_exists(f):
+        # the one thing that may precede the end test: `buffer.get(offset..)` answered Some (it diverges otherwise: an offset
+        # beyond the buffer is the controlled panic of a walk that left the region)
+        f = N(f)
+        if f == ("cmp", "Le", off, ("len", buf)):
+            return True         # (what that answer means)
+        return f[0] == "is_some" and f[1][0] == "call" and cn(f[1][1]) == "core::slice::get" and len(f[1][2]) == 2 and f[1][2][0] == buf and \
+            f[1][2][1][0] == "aggr" and f[1][2][1][1][1] == "core::ops::range::RangeFrom" and f[1][2][1][2] == (off,)
+    g = len(nones) == 1 and len(somes) == 1 and any(is_end_test(f) for f in nones[0].own) and \
+        all(is_rest_exists(f) for f in nones[0].facts if f not in nones[0].own)
     ctx.check(g, rule_prefix + "4", label + ":end", "next() returns None exactly when offset == buffer.len(), as its first test", A.site(), how=str(nones)[:200], why=str(ex)[:400])
     # raw header read
     adds = [(bb, t) for bb, t in b.calls() if M.callee_path(t).endswith("<impl *const T>::add")]
@@ -163,6 +182,8 @@ def check_next(ctx, F, hty, size_off, label, rule_prefix="T"):
             # e.g. `if off == len { return None }  if off > len { panic!() }`: entailed, not literally present
             raw_off = raw_field(A, "next_tag_offset", itf, it[0])
             raw_buf = raw_field(A, "buffer", itf, it[0])
+            # `buffer.get(offset..)` answered Some: offset <= len (std contract of get with a RangeFrom)
+            facts = list(facts) + [("cmp", "Le", raw_off, ("len", raw_buf)) for f in facts if is_rest_exists(f)]
             g2 = G.entails(facts, ("cmp", "Lt", raw_off, ("len", raw_buf))) is not None
         ctx.check(g, rule_prefix + "2", label + ":header-address", "the tag header is read at buffer.as_ptr() + offset (bytes)", A.site(bb), how=G.show(ptr), why=G.show(ptr))
         ctx.check(g2, rule_prefix + "4", label + ":assert", "offset < buffer.len() is a fact where the raw header pointer is formed (the failing edge panics)", A.site(bb),
